@@ -612,8 +612,7 @@ def logosItemsAnswer (args : List String) : String :=
       let o := itemsOrc gs
       let s := LogosItems.run o (LogosItems.init (names lts) (names tys)) (Attr.allNested true (tk top))
       let b := fun (x : Bool) => if x then "1" else "0"
-      let skipE := s.skips.flatMap fun d => d.defn.errors.map fun e => "arg-" ++ attrErrStr e
-      let errs := ((s.errors.map lerrStr) ++ skipE).mergeSort (fun a b => a ≤ b)
+      let errs := (s.errors.map lerrStr).mergeSort (fun a b => a ≤ b)
       let err := match s.errorTy with | none => "-" | some e => if e.callback then "cb" else "ty"
       let u8 := match s.utf8 with | none => "-" | some v => b v
       s!"acc={b (LogosItems.accepted s)} ret={b s.returned} errs={",".intercalate errs} crate={b s.crate.isSome} error={err} export={b s.exportDir.isSome} extras={b s.extras.isSome} utf8={u8} skips={s.skips.length} subs={",".intercalate (s.subs.map (·.1))} tyerrs={s.ty.errs}"
